@@ -125,7 +125,8 @@ def job_end_to_end(res, model, n, nb, it, pset):
                       key='zero-amplitude-apply-%s' % model, cex=None if ok and nanfree else {'replay': 'e2e', 'model': model, 'n': n, 'nb': nb, 'it': it, 'pset': list(pset)}))
 
 def job_queue(res, n, it, L):
-    """B: one apply() consumes exactly the front entry, uses it for the kick, and appends it to the record; getPastModulation hands out everything once"""
+    """B: one apply() consumes exactly the front entry, uses it for the kick, and appends it to the record; getPastModulation hands out everything once.
+    Every path of every call is followed (a map that decides by comparing entries forks)."""
     bld = maps_build(); mod = load_module(bld, MAPS_MODS)
     snap, R, pre = maps_world(bld, n, 1, it)
     ex = Exec(mod, snap, RealDom(), {UPDATE_SM: ext_noop, KICK_APPLY: ext_noop})
@@ -138,37 +139,43 @@ def job_queue(res, n, it, L):
     force = ex.run1(State(), 'e_force', [drf]).retval
     fld = read_fields(ex, st, drf, R)
     ax0 = get_reals(ex, st, R['axis0_data'], n)
-    consumed = []
-    for k in range(L):
-        st = ex.run1(st, 'e_apply', [drf]); consumed.append(ent[k])
-        p, a = ent[k]
-        off = get_reals(ex, st, force, n)
-        # spec of the sinusoidal kick (same uninterpreted sin): revpart*(-ampl*V*sin(q_x*bl2phase+phase)+V0)/delta1/scale1 ; compare up to the common factor by cross-multiplying two cells
-        usin = ex.dom.uf('uf_sin', 1)
-        def core(x): return -a * ex.dom.z(fld['VRF']) * usin(ax0[x] * ex.dom.z(fld['bl2phase']) + p) + ex.dom.z(fld['V0'])
-        bad = [off[x] * core(0) != off[0] * core(x) for x in range(1, n)]
-        prove(res, 'apply #%d kicks with the queue front (phase%d, ampl%d): displacement field is proportional to -ampl*V*sin(q*bl2phase+phase)+V0' % (k + 1, k, k), st.pc, z3.Or(*bad), key='apply-uses-front')
-        witness(res, 'apply #%d: displacement depends on phase%d' % (k + 1, k), st.pc, z3.substitute(off[1], (p, z3.Real('p_alt'))) != off[1])
-        nn = ex.run1(st, 'e_drf_nnext', [drf]).retval; npast = ex.run1(st, 'e_drf_npast', [drf]).retval
-        okc = (nn == 3 - (k + 1) and npast == k + 1)
-        pd = ex.run1(st, 'e_drf_pastdata', [drf]).retval
-        rec = get_reals(ex, st, pd, 2 * (k + 1))
+    usin = ex.dom.uf('uf_sin', 1)
+    def step(states, k):
+        out = []
+        for s0 in states:
+            for s1 in run_paths(ex, s0, 'e_apply', [drf]):
+                p, a = ent[k]; consumed = ent[:k + 1]
+                off = get_reals(ex, s1, force, n)
+                def core(x): return -a * ex.dom.z(fld['VRF']) * usin(ax0[x] * ex.dom.z(fld['bl2phase']) + p) + ex.dom.z(fld['V0'])
+                bad = [off[x] * core(0) != off[0] * core(x) for x in range(1, n)]
+                prove(res, 'apply #%d kicks with the queue front (phase%d, ampl%d): displacement field is proportional to -ampl*V*sin(q*bl2phase+phase)+V0 (path %s)' % (k + 1, k, k, [str(c)[:40] for c in s1.pc[-1:]]), s1.pc, z3.Or(*bad), key='apply-uses-front')
+                witness(res, 'apply #%d: displacement depends on phase%d and ampl%d' % (k + 1, k, k), s1.pc, z3.And(z3.substitute(off[1], (p, z3.Real('p_alt'))) != off[1], z3.substitute(off[1], (a, z3.Real('a_alt'))) != off[1]))
+                nn = ex.run1(s1, 'e_drf_nnext', [drf]).retval; npast = ex.run1(s1, 'e_drf_npast', [drf]).retval
+                okc = (nn == 3 - (k + 1) and npast == k + 1)
+                pd = ex.run1(s1, 'e_drf_pastdata', [drf]).retval
+                rec = get_reals(ex, s1, pd, 2 * (k + 1)) if npast == k + 1 else []
+                want = [v for e in consumed for v in e]
+                prove(res, 'after apply #%d: record holds exactly the %d consumed entries in order; queue length %d (got next=%s past=%s)' % (k + 1, k + 1, 3 - k - 1, nn, npast), s1.pc,
+                      z3.Or(z3.BoolVal(not okc), *[x != y for x, y in zip(rec, want)]), key='queue-discipline')
+                out.append(s1)
+        return out
+    states = [st]
+    for k in range(L): states = step(states, k)
+    consumed = ent[:L]
+    for s1 in states:
+        s2 = ex.run1(s1, 'e_drf_past', [drf]); vec = s2.retval
+        vs = ex.run1(s2, 'e_vecsize', [vec]).retval; vd = ex.run1(s2, 'e_vecdata', [vec]).retval if vs else 0
+        got = get_reals(ex, s2, vd, 2 * vs) if vs else []
+        npast = ex.run1(s2, 'e_drf_npast', [drf]).retval
         want = [v for e in consumed for v in e]
-        prove(res, 'after apply #%d: record holds exactly the %d consumed entries in order; queue length %d (got next=%s past=%s)' % (k + 1, k + 1, 3 - k - 1, nn, npast), st.pc,
-              z3.Or(z3.BoolVal(not okc), *[x != y for x, y in zip(rec, want)]), key='queue-discipline')
-    # flush
-    st = ex.run1(st, 'e_drf_past', [drf]); vec = st.retval
-    vs = ex.run1(st, 'e_vecsize', [vec]).retval; vd = ex.run1(st, 'e_vecdata', [vec]).retval if vs else 0
-    got = get_reals(ex, st, vd, 2 * vs) if vs else []
-    npast = ex.run1(st, 'e_drf_npast', [drf]).retval
-    want = [v for e in consumed for v in e]
-    prove(res, 'getPastModulation after %d steps returns exactly those %d records in order and leaves the record empty (returned %s, left %s)' % (L, L, vs, npast), st.pc,
-          z3.Or(z3.BoolVal(vs != L or npast != 0), *[x != y for x, y in zip(got, want)]), key='flush-discipline')
-    if L < 3:
-        st = ex.run1(st, 'e_apply', [drf]); npast = ex.run1(st, 'e_drf_npast', [drf]).retval; pd = ex.run1(st, 'e_drf_pastdata', [drf]).retval
-        rec = get_reals(ex, st, pd, 2)
-        prove(res, 'the step after a flush records only its own entry (none lost, none duplicated across the flush)', st.pc, z3.Or(z3.BoolVal(npast != 1), rec[0] != ent[L][0], rec[1] != ent[L][1]), key='flush-discipline')
-    account(res, ex, mod, [st])
+        prove(res, 'getPastModulation after %d steps returns exactly those %d records in order and leaves the record empty (returned %s, left %s)' % (L, L, vs, npast), s2.pc,
+              z3.Or(z3.BoolVal(vs != L or npast != 0), *[x != y for x, y in zip(got, want)]), key='flush-discipline')
+        if L < 3:
+            for s3 in run_paths(ex, s2, 'e_apply', [drf]):
+                npast = ex.run1(s3, 'e_drf_npast', [drf]).retval; pd = ex.run1(s3, 'e_drf_pastdata', [drf]).retval
+                rec = get_reals(ex, s3, pd, 2) if npast >= 1 else [z3.RealVal(0), z3.RealVal(0)]
+                prove(res, 'the step after a flush records only its own entry (none lost, none duplicated across the flush)', s3.pc, z3.Or(z3.BoolVal(npast != 1), rec[0] != ent[L][0], rec[1] != ent[L][1]), key='flush-discipline')
+    account(res, ex, mod, states)
 
 def job_calcmod(res, n, it):
     """B2: __calcModulation: entry i == (syncphase + xi_i*sigma_phase + A*sin(delta*i), 1 + eta_i*sigma_ampl) with symbolic members and draws"""
